@@ -22,7 +22,7 @@ class World:
     """classes[i] is the Python class with model id i.  ids 0..len(BUILTINS)-1 are fixed builtins."""
 
     BUILTINS = [object, type, int, str, bool, list, tuple, dict, collections.abc.Sequence,
-                collections.abc.Mapping, collections.abc.Collection, float, type(None), collections.abc.Hashable]
+                collections.abc.Mapping, collections.abc.Collection, float, type(None)]
 
     def __init__(self, spec):
         """spec: list of user class specs, each a dict:
@@ -343,3 +343,91 @@ class TypeFactory:
         if k == "prod":
             return self.prod([sub() for _ in range(r.randint(0, 3))])
         raise AssertionError(k)
+
+
+def dec_val(e, world=None):
+    t = e[0]
+    if t == 0:
+        return e[1]
+    if t == 1:
+        return "".join(chr(c) for c in e[1:])
+    if t == 2:
+        return bool(e[1])
+    if t == 3:
+        return None
+    if t == 4:
+        return tuple(dec_val(x, world) for x in e[1:])
+    if t == 5:
+        return [dec_val(x, world) for x in e[1:]]
+    if t == 6:
+        return {dec_val(k, world): dec_val(v, world) for k, v in e[1:]}
+    if t == 7:
+        return world.instance(e[1], e[2])
+    raise ValueError(e)
+
+
+class Decoder:
+    """Rebuild Python type objects from model encodings (replays, witnesses).  Objects with identity
+    semantics are cached by their encoded id so that equal ids give the same object."""
+
+    FN_NAMES = {v: k for k, v in FN_IDS.items()}
+    TFN_NAMES = {v: k for k, v in TFN_IDS.items()}
+
+    def __init__(self, world):
+        self.w = world
+        self.cache = {}
+        self.user_types = {}
+
+    def ty(self, e):
+        w = self.w
+        t = e[0]
+        if t == 0:
+            return w.classes[e[1]]
+        if t == 1:
+            o = w.classes[e[1]]
+            args = tuple(self.ty(x) for x in e[2:])
+            if not args:
+                import typing as _t
+                return {collections.abc.Collection: _t.Collection, collections.abc.Sequence: _t.Sequence,
+                        collections.abc.Mapping: _t.Mapping, list: _t.List, dict: _t.Dict, tuple: _t.Tuple}.get(o, o)
+            if o is type:
+                return type[args[0]]
+            return o[args] if len(args) != 1 else o[args[0]]
+        if t == 2:
+            return otypes.Union[tuple(self.ty(x) for x in e[1:])]
+        if t == 3:
+            return otypes.Intersection[tuple(self.ty(x) for x in e[1:])]
+        if t in (4, 5, 6, 7):
+            key = (t, e[1])
+            if key not in self.cache:
+                if t == 4:
+                    self.cache[key] = otypes.Exactly[w.classes[e[2]]]
+                elif t == 5:
+                    self.cache[key] = otypes.StrictSubclass[w.classes[e[2]]]
+                elif t == 6:
+                    self.cache[key] = otypes.HasMethod[METHOD_NAMES[e[2]]]
+                else:
+                    self.cache[key] = otypes.class_check(w.preds[e[2]])
+            return self.cache[key]
+        if t == 8:
+            return odep.Equals(*[dec_val(v, w) for v in e[2:]], bound=self.ty(e[1]))
+        if t == 9:
+            f = e[1]
+            params = [typing.Any if p[0] == 0 else dec_val(p[1], w) for p in e[3:]]
+            if f in self.FN_NAMES:
+                return getattr(odep, self.FN_NAMES[f])(*params, bound=self.ty(e[2]))
+            if f not in self.user_types:
+                self.user_types[f] = odep.dependent_check(lambda value: True)
+            return self.user_types[f].with_bound(self.ty(e[2]))
+        if t == 10:
+            return getattr(odep, self.TFN_NAMES[e[1]])(*[self.ty(x) for x in e[3:]], bound=self.ty(e[2]))
+        if t == 11:
+            return odep.ProductType(*[self.ty(x) for x in e[2:]], bound=self.ty(e[1]))
+        raise ValueError(e)
+
+
+def world_from(spec, pred_sets=()):
+    w = World(spec)
+    for p in pred_sets:
+        w.add_pred(p)
+    return w
